@@ -28,6 +28,14 @@ theorem object_id_collision : joinD [[97, 36, 98]] = joinD [[97], [98]] ∧ ([[9
 
 example : ([[97], [98]] : Key) ≠ [] ∧ ∀ n ∈ ([[97], [98]] : Key), dollar ∉ n := by decide
 
+/-- `parse_object_id` (split on `$`) recovers the id from the object id when no name contains the delimiter -/
+theorem parse_build_roundtrip {k : Key} (hk : k ≠ []) (hc : ∀ n ∈ k, dollar ∉ n) : splitD (joinD k) = k :=
+  splitD_joinD hk hc
+
+example : splitD (joinD [[97], [], [98, 99]]) = [[97], [], [98, 99]] := by decide
+/-- with a delimiter inside a name the parse returns a different id -/
+example : splitD (joinD [[97, 36, 98]]) = [[97], [98]] := by decide
+
 /-- table ids go through `split_object_id` + `build_object_id`: the same string as the plain join -/
 theorem table_object_id {id : Key} (h : id ≠ []) : tableOid id = joinD id := tableOid_eq h
 
@@ -126,11 +134,17 @@ theorem Spec.get_del_ne (sp : Spec) {k k' : Key} (h : k' ≠ k) : (sp.del k).get
   | nil => rfl
   | cons e sp ih =>
     by_cases he : e.1 = k
-    · have : e.1 ≠ k' := fun h2 => h (h2 ▸ he)
-      simp [List.filter_cons, he, this, ih]
-    · by_cases h2 : e.1 = k'
-      · simp [List.filter_cons, he, h2]
-      · simp [List.filter_cons, he, h2, ih]
+    · have hq : ¬ (decide (e.1 = k') = true) := by
+        simp only [decide_eq_true_eq]; exact fun h2 => h (h2 ▸ he)
+      rw [List.filter_cons_of_neg (by simp [he]), List.find?_cons_of_neg (p := fun e : Key × Ty => decide (e.1 = k')) hq]
+      exact ih
+    · rw [List.filter_cons_of_pos (by simp [he])]
+      by_cases h2 : e.1 = k'
+      · rw [List.find?_cons_of_pos (p := fun e : Key × Ty => decide (e.1 = k')) (by simp [h2]),
+          List.find?_cons_of_pos (p := fun e : Key × Ty => decide (e.1 = k')) (by simp [h2])]
+      · rw [List.find?_cons_of_neg (p := fun e : Key × Ty => decide (e.1 = k')) (by simp [h2]),
+          List.find?_cons_of_neg (p := fun e : Key × Ty => decide (e.1 = k')) (by simp [h2])]
+        exact ih
 
 /-- `ops_isolated`: a call addressed to `op.id` leaves the entry at every other key untouched -/
 theorem spec_ops_isolated (sp : Spec) (op : Op) (k' : Key) (h : k' ≠ op.id) : (sp.step op).1.get k' = sp.get k' := by
